@@ -289,6 +289,14 @@ MpEvent(e) ==
             /\ viol' = IF Stake[n] + SumStake(ackers) >= Quorum THEN viol ELSE viol \cup {<<"C12.ReleasedWithQuorumOfAcks", l>>}
   /\ UNCHANGED <<vars, div, ndiv, lst, nsteps, have, seen>>
 
+\* The receiver's side of the reliable sender's contract (ReliableSender.tla pairs the k-th reply with the k-th frame written): per connection into
+\* a real node, one reply for every frame that must be acknowledged (every mempool frame, every Propose), none for the others.  The last
+\* acknowledgement may still be in flight when the run ends.
+NetEvent(e) ==
+  /\ viol' = viol \cup Lim(IF e.k = "ConnTotals" /\ (e.replies > e.ackable \/ e.ackable - e.replies > 1)
+                           THEN {<<(IF e.port = "mempool" THEN "C12.ReceiverAcksEachFrameOnce" ELSE "C06.ReceiverAcksEachProposalOnce"), l>>} ELSE {})
+  /\ UNCHANGED <<vars, div, ndiv, lst, nsteps, have, seen, mp>>
+
 TNext ==
   /\ l <= Len(Rec)
   /\ l' = l + 1
@@ -297,6 +305,7 @@ TNext ==
          [] e.t = "end" -> End
          [] e.t = "core" /\ e.node \in Honest -> CoreStep(e)
          [] e.t = "task" /\ e.node \in Honest -> TaskStep(e)
+         [] e.t = "net" -> NetEvent(e)
          [] e.t = "mp" /\ e.k = "BatchStored" /\ e.node \in Honest -> Stored(e)
          [] e.t = "mp" /\ e.k \in {"Seal", "BatchAck", "QWRelease"} /\ e.node \in Honest -> MpEvent(e)
          [] OTHER -> Skip
